@@ -1,6 +1,7 @@
 package core
 
 import (
+	"sort"
 	"fmt"
 	"go/token"
 	"go/types"
@@ -145,6 +146,9 @@ func (x *Exec) callCommon(fr *frame, s *State, c *ssa.CallCommon, fnv Value, arg
 			return x.applyContract(fr, s, ct, nil, c.Method.Name(), append([]Value{fnv}, args...), invokeParamNames(c), sig, pos)
 		}
 		if res, ok := x.invokeModel(fr, s, c, fnv, args, pos); ok {
+			return res
+		}
+		if res, ok := x.devirtualize(fr, s, c, fnv, args, key, pos); ok {
 			return res
 		}
 		return x.unknownCall(fr, s, key, nil, sig, pos)
@@ -701,4 +705,74 @@ func (x *Exec) atCallCheck(fr *frame, s *State, key string, args []Value) {
 				fmt.Sprintf("%s:%d", filepath.Base(ac.File), ac.Line), "before "+ac.Callee+": "+ac.Text, s.Reach, prop)
 		}
 	}
+}
+
+// devirtualize: an interface method call whose possible targets inside the package are few
+// (methods of that name and signature with pointer receivers) is executed as a case split on
+// the dynamic type of the receiver: under "the dynamic type is *T" the method of T is called
+// (through its contract, or in place); under "none of them" the call is an unknown call.
+func (x *Exec) devirtualize(fr *frame, s *State, c *ssa.CallCommon, fnv Value, args []Value, key string, pos token.Pos) ([]Value, bool) {
+	if x.C.noDefine > 0 || len(fnv.L) != 3 {
+		return nil, false
+	}
+	var cands []*ssa.Function
+	for _, fn := range x.E.dynTargets(c) {
+		if fn.Signature.Recv() == nil || !isPointer(fn.Signature.Recv().Type()) || len(fn.Blocks) == 0 {
+			continue
+		}
+		if !types.Implements(fn.Signature.Recv().Type(), c.Value.Type().Underlying().(*types.Interface)) {
+			continue
+		}
+		ct := x.E.contractFor(fn)
+		if ct == nil && !x.E.autoPure(fn, 0) {
+			return nil, false // a target without contract: nothing is gained over the unknown call
+		}
+		cands = append(cands, fn)
+	}
+	if len(cands) == 0 || len(cands) > 6 {
+		return nil, false
+	}
+	sort.Slice(cands, func(i, j int) bool { return x.E.fnKey(cands[i]) < x.E.fnKey(cands[j]) })
+	sig := c.Signature()
+	var edges []edge
+	var results [][]Value
+	var conds []Term
+	for _, fn := range cands {
+		rt := fn.Signature.Recv().Type()
+		cond := Eq(fnv.L[0], IntLit(x.E.typeID(rt)))
+		conds = append(conds, cond)
+		st := s.Clone()
+		st.Reach = x.C.Define("br", And(s.Reach, cond))
+		recv := Value{T: rt, L: []Term{fnv.L[1], fnv.L[2]}, NN: true}
+		res := x.callFunction(fr, st, fn, append([]Value{recv}, args...), nil, pos)
+		if st.Reach.S == "false" || res == nil && sig.Results().Len() > 0 {
+			continue
+		}
+		edges = append(edges, edge{st: st, cond: st.Reach})
+		results = append(results, res)
+	}
+	other := s.Clone()
+	other.Reach = x.C.Define("br", And(s.Reach, Not(Or(conds...))))
+	ores := x.unknownCall(fr, other, key, nil, sig, pos)
+	edges = append(edges, edge{st: other, cond: other.Reach})
+	results = append(results, ores)
+	merged := x.merge(edges)
+	*s = *merged
+	out := make([]Value, sig.Results().Len())
+	for i := range out {
+		t := sig.Results().At(i).Type()
+		v := Value{T: t, L: make([]Term, len(results[0][i].L))}
+		for l := range v.L {
+			ts := make([]Term, len(edges))
+			cs := make([]Term, len(edges))
+			for k := range edges {
+				ts[k] = results[k][i].L[l]
+				cs[k] = edges[k].cond
+			}
+			v.L[l] = x.join("dv", cs, ts)
+		}
+		out[i] = v
+	}
+	x.C.Trusted["interface method calls with few package-internal targets are case-split on the receiver's dynamic type"] = true
+	return out, true
 }
